@@ -275,19 +275,19 @@ def _rules(ck, prog, cfg):
             ck.check(not extra and "bucket" in calls and "contains" in calls, "R18.6", "get_keys_in_buckets:predicate" + _tag(cfg),
                      "the selection predicate is not `buckets.contains(KeyDigest::new(k, v).bucket(depth))` (calls: %s)" % calls,
                      cf.where(), detail="predicate = bucket membership")
-            # R18.4: depth argument
+            # R18.4: depth argument - the configured depth, read directly or through the local `depth` of the enclosing function
+            dsrc = None
+            for b2, i2, st2 in gk.stmts():
+                if "p" not in st2["lhs"] and gk.name_of_local(st2["lhs"]["l"]) == "depth" and st2["rv"]["k"] == "use":
+                    dsrc = src_of_operand(gk, st2["rv"]["a"])
             for bb, tt in cf.calls():
                 if is_callee(tt, r"KeyDigest::bucket$"):
-                    d = src_of_operand(cf, tt["args"][1])
-                    ck.check(d.kind == "path" and "depth" in (d.root or ""), "R18.4", "get_keys_in_buckets:depth" + _tag(cfg),
-                             "key selection computes buckets with %s instead of the configured depth" % d.path(), cf.where(tt["ln"]),
-                             detail="bucket(depth)")
-    dsrc = None
-    for b, i, st in gk.stmts():
-        if "p" not in st["lhs"] and gk.name_of_local(st["lhs"]["l"]) == "depth" and st["rv"]["k"] == "use":
-            dsrc = src_of_operand(gk, st["rv"]["a"])
-    ck.check(dsrc is not None and dsrc.fields[-1:] == ("merkle_tree_depth",), "R18.4", "get_keys_in_buckets:depth-source" + _tag(cfg),
-             "selection depth is not config.merkle_tree_depth", gk.where(), detail="depth = config.merkle_tree_depth")
+                    d = src_of_operand(cf, tt["args"][1], through_calls=TRANSPARENT)
+                    direct = d.fields[-1:] == ("merkle_tree_depth",)
+                    via_local = d.kind == "path" and "depth" in (d.root or "") and dsrc is not None and dsrc.fields[-1:] == ("merkle_tree_depth",)
+                    ck.check(direct or via_local, "R18.4", "get_keys_in_buckets:depth" + _tag(cfg),
+                             "key selection computes buckets with %s instead of the configured merkle_tree_depth" % d.path(), cf.where(tt["ln"]),
+                             detail="bucket(config.merkle_tree_depth)")
     for b, t in fs.calls():
         if is_callee(t, r"KeyDigest::bucket$"):
             d = src_of_operand(fs, t["args"][1])
